@@ -397,6 +397,9 @@ def eval_call(ex, node, st, want):
     if isinstance(f, ast.Name):
         if name == 'len':
             x = ex.ev(node.args[0], st)
+            if isinstance(x.ty, T.Opt):
+                ex.safety(st, z3.Not(x.ty.is_none(x.t)), 'len-of-None')
+                x = SV(x.ty.inner, x.ty.get(x.t))
             if isinstance(x.ty, T.Seq):
                 return SV(T.INT, seq_len(x))
             if x.ty in (T.EMPTYSEQ, T.EMPTYDICT):
@@ -485,6 +488,8 @@ def eval_call(ex, node, st, want):
             a = ex.ev(node.args[0], st, want if isinstance(want, T.Seq) else None)
             if isinstance(a.ty, T.Seq) or a.ty == T.EMPTYSEQ:
                 return a
+            if a.extra and a.extra[0] == 'mapview' and a.extra[1] == 'items' and isinstance(a.extra[2].ty, T.Map):
+                return items_enumeration(ex, a.extra[2], st)
             raise OutOfSubset('%s() of %s' % (name, a.ty))
         if name == 'dict':
             if not node.args:
@@ -515,6 +520,23 @@ def eval_call(ex, node, st, want):
                 k = z3.Const('k!dp%d' % next(_fresh_counter), kt.sort())
                 i = z3.Int('i!dp%d' % next(_fresh_counter))
                 j = z3.Int('j!dp%d' % next(_fresh_counter))
+                if a.extra and a.extra[0] == 'slice':
+                    # dict(base[lo:lo+ln]): the same meaning (keys = first components, the LAST pair of a key wins), stated
+                    # over the indices of the base sequence and without nested quantifiers: last(k) is the greatest index
+                    # of the window that carries key k
+                    _, b, lo_, ln_ = a.extra
+                    barr = b.ty.arr(b.t)
+                    bkey = lambda ix: a.ty.elem.get(barr[ix], 0)
+                    bval = lambda ix: a.ty.elem.get(barr[ix], 1)
+                    last = z3.Function('lastidx!%d' % next(_fresh_counter), kt.sort(), z3.IntSort())
+                    st.pc.append(z3.ForAll([k], z3.Implies(map_has(m, k), z3.And(
+                        lo_ <= last(k), last(k) < lo_ + ln_, bkey(last(k)) == k, map_get(m, k).t == bval(last(k)))),
+                        patterns=[mty.has(m.t)[k], last(k)]))
+                    st.pc.append(z3.ForAll([k, j], z3.Implies(z3.And(map_has(m, k), last(k) < j, j < lo_ + ln_), bkey(j) != k),
+                                           patterns=[z3.MultiPattern(last(k), barr[j])]))
+                    st.pc.append(z3.ForAll([i], z3.Implies(z3.And(lo_ <= i, i < lo_ + ln_), map_has(m, bkey(i))),
+                                           patterns=[barr[i]]))
+                    return m
                 key_at = lambda ix: a.ty.elem.get(seq_get(a, ix).t, 0)
                 val_at = lambda ix: a.ty.elem.get(seq_get(a, ix).t, 1)
                 st.pc.append(z3.ForAll([k], map_has(m, k) == z3.Exists([i], z3.And(0 <= i, i < n, key_at(i) == k))))
@@ -718,6 +740,35 @@ def eval_all_any(ex, node, st, which):
     if which == 'all':
         return SV(T.BOOL, z3.ForAll([j], z3.Implies(rng, body)))
     return SV(T.BOOL, z3.Exists([j], z3.And(rng, body)))
+
+
+def items_enumeration(ex, m, st):
+    """list(d.items()) for a by-value dict d: Python semantics assumed (listed): the items view enumerates every key of
+    the dict exactly once, with the value stored under it, in an order that is a function of the dict value alone (two
+    enumerations of an unmodified dict agree), and there are len(d) of them."""
+    mty = m.ty
+    sty = T.Seq(T.Tup([mty.key, mty.val]))
+    enum = z3.Function('items!' + mty.name, mty.sort(), sty.sort())
+    pos = z3.Function('itempos!' + mty.name, mty.sort(), mty.key.sort(), z3.IntSort())
+    card = z3.Function('card!' + mty.name, mty.sort(), z3.IntSort())
+    res = SV(sty, enum(m.t))
+    n = seq_len(res)
+    st.pc.extend(sty.wf(res.t))
+    st.pc.append(n == card(m.t))
+    i = z3.Int('i!en%d' % next(_fresh_counter))
+    k = z3.Const('k!en%d' % next(_fresh_counter), mty.key.sort())
+    elem = sty.arr(res.t)[i]
+    key_i, val_i = sty.elem.get(elem, 0), sty.elem.get(elem, 1)
+    st.pc.append(z3.ForAll([i], z3.Implies(z3.And(0 <= i, i < n),
+                                           z3.And(mty.has(m.t)[key_i], mty.vals(m.t)[key_i] == val_i,
+                                                  pos(m.t, key_i) == i)), patterns=[elem]))
+    kelem = sty.arr(res.t)[pos(m.t, k)]
+    st.pc.append(z3.ForAll([k], z3.Implies(mty.has(m.t)[k],
+                                           z3.And(0 <= pos(m.t, k), pos(m.t, k) < n, sty.elem.get(kelem, 0) == k)),
+                           patterns=[pos(m.t, k), mty.has(m.t)[k]]))
+    ex.ctx.assumptions_used.add('python:list(d.items()) enumerates every key of d exactly once with its value, len(d) pairs, '
+                                'in an order determined by the dict value')
+    return res
 
 
 def eval_sorted(ex, node, st):
